@@ -89,48 +89,236 @@ def check_valid(fn, keys, with_location):
     return prefix, subs
 
 
+# --------------------------------------------------------------------------- behavioural fall-back
+# When the source no longer has the shape the AST reader knows (a helper was extracted, a tuple hoisted, an
+# if-chain rewritten), the table is NOT refused outright: the literals are harvested from the function and from
+# what it references, a reference predicate is built from them, and the real function (imported from the tree
+# under test) is compared with that reference on a grid of inputs.  Agreement on the whole grid -> the table is
+# emitted as before; a disagreement -> Refuse, naming the input.  A behaviour-preserving refactoring therefore does
+# not raise an alarm, and a behaviour change that the harvested constants cannot explain still does.
+
+def _load(repo: Path, name: str):
+    import importlib
+    import sys
+    sys.path.insert(0, str(repo))
+    try:
+        for k in [k for k in sys.modules if k == "async_upnp_client" or k.startswith("async_upnp_client.")]:
+            del sys.modules[k]
+        return importlib.import_module(f"async_upnp_client.{name}")
+    finally:
+        sys.path.pop(0)
+
+
+def _harvest(tree, fn_name, kind, depth=2):
+    """str / bytes constants in function fn_name, in module-level assignments and functions it references"""
+    funcs = {n.name: n for n in tree.body if isinstance(n, ast.FunctionDef)}
+    assigns = {}
+    for n in tree.body:
+        if isinstance(n, ast.Assign):
+            for t in n.targets:
+                if isinstance(t, ast.Name):
+                    assigns[t.id] = n.value
+        elif isinstance(n, ast.AnnAssign) and isinstance(n.target, ast.Name) and n.value is not None:
+            assigns[n.target.id] = n.value
+    out, seen = [], set()
+
+    def visit(node, d):
+        for sub in ast.walk(node):
+            if isinstance(sub, ast.Constant) and isinstance(sub.value, kind) and sub.value not in out:
+                out.append(sub.value)
+            elif isinstance(sub, ast.Name) and d > 0 and sub.id not in seen:
+                seen.add(sub.id)
+                if sub.id in assigns:
+                    visit(assigns[sub.id], d - 1)
+                elif sub.id in funcs and sub.id != fn_name:
+                    visit(funcs[sub.id], d - 1)
+    if fn_name not in funcs:
+        raise Refuse(f"function {fn_name} not found")
+    body = [n for n in funcs[fn_name].body if not (isinstance(n, ast.Expr) and isinstance(n.value, ast.Constant))]
+    for n in body:
+        visit(n, depth)
+    return out
+
+
+def _probe_valid(mod, utils, prefix, subs):
+    """valid_search_headers / valid_advertisement_headers / valid_byebye_headers against the reference predicates"""
+    CID = utils.CaseInsensitiveDict
+    locs = [None, "", prefix, prefix + "://10.0.0.1/x", "ftp://10.0.0.1/x", prefix.upper() + "://h/", " " + prefix + "://h/",
+            prefix + "s://h.example:8080/d.xml", "x" + prefix + "://h/"]
+    for m in subs:
+        locs += [prefix + m + "/x", prefix + "s" + m + ":80/", m, "x" + m, prefix + m[:-1], prefix + "://h/?u=" + m]
+    vals = [None, "", "v"]
+
+    def ref_loc(loc):
+        return bool(loc and loc.startswith(prefix) and not any(m in loc for m in subs))
+    for udn in (None, "", "uuid:x"):
+        for a in vals:
+            for b in vals:
+                for loc in locs:
+                    base = {k: v for k, v in (("_udn", udn), ("LOCATION", loc)) if v is not None}
+                    hs = CID({**base, **({"ST": a} if a is not None else {})})
+                    if bool(mod.valid_search_headers(hs)) != bool(udn and a and ref_loc(loc)):
+                        raise Refuse(f"valid_search_headers differs from the reference on {dict(hs)!r}", counterexample=True)
+                    ha = CID({**base, **({"NT": a} if a is not None else {}), **({"NTS": b} if b is not None else {})})
+                    if bool(mod.valid_advertisement_headers(ha)) != bool(udn and a and b and ref_loc(loc)):
+                        raise Refuse(f"valid_advertisement_headers differs from the reference on {dict(ha)!r}", counterexample=True)
+                    if bool(mod.valid_byebye_headers(ha)) != bool(udn and a and b):
+                        raise Refuse(f"valid_byebye_headers differs from the reference on {dict(ha)!r}", counterexample=True)
+
+
+def _probe_packet(mod, prefixes):
+    grid = [b"", b"\n", b"\r\n", b"x", b"GET / HTTP/1.1\r\n\r\n"]
+    # start lines a change could plausibly add or drop, whatever literals were harvested
+    for verb in (b"NOTIFY", b"M-SEARCH", b"SEARCH", b"SUBSCRIBE", b"HTTP/1.1", b"HTTP/1.0", b"HTTP/1.1 200", b"HTTP/1.1 200 OK",
+                 b"HTTP/1.0 200 OK", b"HTTP/1.1 404 Not Found", b"HTTP/1.1 204 No Content"):
+        for rest in (b"", b" * HTTP/1.1", b" * HTTP/1.0", b" / HTTP/1.1"):
+            grid += [verb + rest + b"\r\n\r\n", (verb + rest).lower() + b"\r\n\r\n"]
+    for p in prefixes:
+        grid += [p, p + b"\r\n", p + b"\n", p + b"\r\nA:b\r\n\r\n", p[:-1] + b"\n", b"x" + p + b"\n", p.lower() + b"\n",
+                 p + b" \r\n", b" " + p + b"\n", p[:5] + b"\n"]
+    for data in grid:
+        want = bool(data) and b"\n" in data and any(data.startswith(p) for p in prefixes)
+        if bool(mod.is_valid_ssdp_packet(data)) != want:
+            raise Refuse(f"is_valid_ssdp_packet differs from the reference on {data!r}", counterexample=True)
+
+
+def _probe_max_age(mod, word, default_age):
+    import datetime as dt
+    rx = re.compile(re.escape(word) + r"\s*=\s*(\d+)", re.IGNORECASE)
+
+    def ref_after(cc):
+        m = rx.search(cc)
+        if m:
+            try:
+                return dt.timedelta(seconds=int(m[1]))
+            except (OverflowError, ValueError):
+                return dt.timedelta.max
+        return dt.timedelta(seconds=default_age)
+    ccs = ["", "no-cache", f"{word}=5", f"{word.upper()} = 7", f"{word}=0", f"{word}=" + "9" * 25, f"{word}=86399999999999",
+           f"{word}=86400000000000", f"{word}=-5", f"{word}", f"x, {word}=1800, y", f"{word}=\u0661\u0662", f"{word}=" + "1" * 5000]
+    stamps = [dt.datetime(1, 1, 2), dt.datetime(2020, 1, 1, 12), dt.datetime(9999, 12, 30)]
+    for cc in ccs:
+        try:
+            got = mod.extract_uncache_after(cc)
+        except Exception as e:  # noqa: BLE001
+            raise Refuse(f"extract_uncache_after({cc[:40]!r}) raised {type(e).__name__}", counterexample=True) from e
+        if got != ref_after(cc):
+            raise Refuse(f"extract_uncache_after({cc[:40]!r}) = {got!r}, reference {ref_after(cc)!r}", counterexample=True)
+        for ts in stamps:
+            try:
+                want = ts + ref_after(cc)
+            except OverflowError:
+                want = dt.datetime.max
+            try:
+                got = mod.extract_valid_to(_utils.CaseInsensitiveDict({"CACHE-CONTROL": cc, "_timestamp": ts}))
+            except Exception as e:  # noqa: BLE001
+                raise Refuse(f"extract_valid_to({cc[:40]!r}, {ts}) raised {type(e).__name__}", counterexample=True) from e
+            if got != want:
+                raise Refuse(f"extract_valid_to({cc[:40]!r}, {ts}) = {got!r}, reference {want!r}", counterexample=True)
+
+
+_utils = None
+
+
 def generate(repo: Path) -> str:
+    global _utils
     lt = ast.parse((repo / "async_upnp_client" / "ssdp_listener.py").read_text())
     ct = ast.parse((repo / "async_upnp_client" / "const.py").read_text())
     st = ast.parse((repo / "async_upnp_client" / "ssdp.py").read_text())
+    notes = []
 
-    rx = top_assign(lt, "CACHE_CONTROL_RE")
-    if not (isinstance(rx, ast.Call) and ast.unparse(rx.func) == "re.compile" and len(rx.args) == 2
-            and isinstance(rx.args[0], ast.Constant) and ast.unparse(rx.args[1]) == "re.IGNORECASE"):
-        raise Refuse("CACHE_CONTROL_RE shape")
-    m = re.fullmatch(r"([a-z\-]+)\\s\*=\\s\*\(\\d\+\)", rx.args[0].value)
+    def fallback(what, err):
+        notes.append(f"{what}: source shape not recognised ({err}); harvested literals validated by probing the function")
+
+    # ---- CACHE_CONTROL_RE, DEFAULT_MAX_AGE, IGNORED_HEADERS: values (AST first, the imported module otherwise)
+    mod_l = None
+
+    def listener():
+        nonlocal mod_l
+        global _utils
+        if mod_l is None:
+            mod_l = _load(repo, "ssdp_listener")
+            import sys
+            _utils = sys.modules["async_upnp_client.utils"]
+        return mod_l
+    try:
+        rx = top_assign(lt, "CACHE_CONTROL_RE")
+        if not (isinstance(rx, ast.Call) and ast.unparse(rx.func) == "re.compile" and len(rx.args) == 2
+                and isinstance(rx.args[0], ast.Constant) and ast.unparse(rx.args[1]) == "re.IGNORECASE"):
+            raise Refuse("CACHE_CONTROL_RE shape")
+        pattern = rx.args[0].value
+    except Refuse as e:
+        cre = getattr(listener(), "CACHE_CONTROL_RE", None)
+        if not isinstance(cre, re.Pattern) or not (cre.flags & re.IGNORECASE):
+            raise Refuse(f"CACHE_CONTROL_RE: {e}") from e
+        pattern = cre.pattern
+        fallback("CACHE_CONTROL_RE", e)
+    m = re.fullmatch(r"([a-z\-]+)\\s\*=\\s\*\(\\d\+\)", pattern)
     if not m:
-        raise Refuse(f"CACHE_CONTROL_RE pattern {rx.args[0].value!r}")
+        raise Refuse(f"CACHE_CONTROL_RE pattern {pattern!r}")
     word = m.group(1)
-    dm = top_assign(lt, "DEFAULT_MAX_AGE")
-    mm = re.fullmatch(r"timedelta\(seconds=(\d+)\)", ast.unparse(dm))
-    if not mm:
-        raise Refuse("DEFAULT_MAX_AGE shape")
-    default_age = int(mm.group(1))
-    ig = top_assign(lt, "IGNORED_HEADERS")
-    if not (isinstance(ig, ast.Set) and all(isinstance(e, ast.Constant) and isinstance(e.value, str) for e in ig.elts)):
-        raise Refuse("IGNORED_HEADERS shape")
-    ignored = sorted(e.value for e in ig.elts)
+    try:
+        mm = re.fullmatch(r"timedelta\(seconds=(\d+)\)", ast.unparse(top_assign(lt, "DEFAULT_MAX_AGE")))
+        if not mm:
+            raise Refuse("DEFAULT_MAX_AGE shape")
+        default_age = int(mm.group(1))
+    except Refuse as e:
+        import datetime as dt
+        v = getattr(listener(), "DEFAULT_MAX_AGE", None)
+        if not isinstance(v, dt.timedelta) or v.microseconds or v.total_seconds() < 0:
+            raise Refuse(f"DEFAULT_MAX_AGE: {e}") from e
+        default_age = int(v.total_seconds())
+        fallback("DEFAULT_MAX_AGE", e)
+    try:
+        ig = top_assign(lt, "IGNORED_HEADERS")
+        if not (isinstance(ig, ast.Set) and all(isinstance(e, ast.Constant) and isinstance(e.value, str) for e in ig.elts)):
+            raise Refuse("IGNORED_HEADERS shape")
+        ignored = sorted(e.value for e in ig.elts)
+    except Refuse as e:
+        v = getattr(listener(), "IGNORED_HEADERS", None)
+        if not isinstance(v, (set, frozenset, tuple, list)) or not all(isinstance(x, str) for x in v):
+            raise Refuse(f"IGNORED_HEADERS: {e}") from e
+        ignored = sorted(set(v))
+        fallback("IGNORED_HEADERS", e)
 
-    # extract_uncache_after / extract_valid_to: shapes the model mirrors
-    eu = ast.unparse(func(lt, "extract_uncache_after"))
-    for frag in ("CACHE_CONTROL_RE.search(cache_control)", "int(match[1])", "timedelta(seconds=max_age)",
-                 "except (OverflowError, ValueError)", "return timedelta.max", "return DEFAULT_MAX_AGE"):
-        if frag not in eu:
-            raise Refuse(f"extract_uncache_after: missing {frag}")
-    ev = ast.unparse(func(lt, "extract_valid_to"))
-    for frag in ("headers.get_lower('cache-control', '')", "headers.get_lower('_timestamp')", "timestamp + uncache_after",
-                 "except OverflowError", "return datetime.max"):
-        if frag not in ev:
-            raise Refuse(f"extract_valid_to: missing {frag}")
+    # ---- extract_uncache_after / extract_valid_to
+    try:
+        eu = ast.unparse(func(lt, "extract_uncache_after"))
+        for frag in ("CACHE_CONTROL_RE.search(cache_control)", "int(match[1])", "timedelta(seconds=max_age)",
+                     "except (OverflowError, ValueError)", "return timedelta.max", "return DEFAULT_MAX_AGE"):
+            if frag not in eu:
+                raise Refuse(f"extract_uncache_after: missing {frag}")
+        ev = ast.unparse(func(lt, "extract_valid_to"))
+        for frag in ("headers.get_lower('cache-control', '')", "headers.get_lower('_timestamp')", "timestamp + uncache_after",
+                     "except OverflowError", "return datetime.max"):
+            if frag not in ev:
+                raise Refuse(f"extract_valid_to: missing {frag}")
+    except Refuse as e:
+        _probe_max_age(listener(), word, default_age)
+        fallback("extract_uncache_after / extract_valid_to", e)
 
-    prefix = subs = None
-    for name, spec in VALID_TMPL.items():
-        got = check_valid(func(lt, name), spec[:-1], spec[-1])
-        if got:
-            if prefix is not None and (prefix, subs) != got:
-                raise Refuse("search and advertisement location tests differ")
-            prefix, subs = got
+    # ---- the three validity predicates
+    try:
+        prefix = subs = None
+        for name, spec in VALID_TMPL.items():
+            got = check_valid(func(lt, name), spec[:-1], spec[-1])
+            if got:
+                if prefix is not None and (prefix, subs) != got:
+                    raise Refuse("search and advertisement location tests differ")
+                prefix, subs = got
+    except Refuse as e:
+        lits = []
+        for name in VALID_TMPL:
+            for x in _harvest(lt, name, str):
+                if x not in lits:
+                    lits.append(x)
+        cand = [x for x in lits if x and "http://".startswith(x) and "://" not in x]
+        subs = [x for x in lits if x.startswith("://")]
+        if len(cand) != 1 or not subs:
+            raise Refuse(f"valid_*_headers: {e}; harvested literals {lits!r} do not determine the location test") from e
+        prefix = cand[0]
+        _probe_valid(listener(), _utils, prefix, subs)
+        fallback("valid_*_headers", e)
 
     nts = enum_values(ct, "NotificationSubType")
     src = enum_values(ct, "SsdpSource")
@@ -144,11 +332,24 @@ def generate(repo: Path) -> str:
     if not (isinstance(disc, ast.Constant) and isinstance(disc.value, str)):
         raise Refuse("SSDP_DISCOVER")
 
-    # is_valid_ssdp_packet prefixes
-    iv = ast.unparse(func(st, "is_valid_ssdp_packet"))
-    prefixes = re.findall(r"data\.startswith\(b'([^']*)'\)", iv)
-    if len(prefixes) != 3 or "b'\\n' in data" not in iv or "bool(data)" not in iv:
-        raise Refuse("is_valid_ssdp_packet shape: " + iv[-200:])
+    # ---- is_valid_ssdp_packet prefixes
+    try:
+        iv = ast.unparse(func(st, "is_valid_ssdp_packet"))
+        prefixes = re.findall(r"data\.startswith\(b'([^']*)'\)", iv)
+        if len(prefixes) != 3 or "b'\\n' in data" not in iv or "bool(data)" not in iv:
+            raise Refuse("is_valid_ssdp_packet shape: " + iv[-200:])
+    except Refuse as e:
+        cand = [x for x in _harvest(st, "is_valid_ssdp_packet", bytes)]
+        cand += [x.encode() for x in _harvest(st, "is_valid_ssdp_packet", str) if x.isascii()]
+        cand = [c for i, c in enumerate(cand) if b"HTTP/" in c and c not in cand[:i]]
+        live = _load(repo, "ssdp")
+        # keep the candidates the function really treats as a start line: accepted, and no shorter prefix of it is
+        blits = [c for c in cand if live.is_valid_ssdp_packet(c + b"\n") and not live.is_valid_ssdp_packet(c[:-1] + b"\n")]
+        if not blits:
+            raise Refuse(f"is_valid_ssdp_packet: {e}; no start-line literal found") from e
+        _probe_packet(live, blits)
+        prefixes = [b.decode("ascii") for b in blits]
+        fallback("is_valid_ssdp_packet", e)
 
     lines = [
         "(* GENERATED by tools/gen/ssdp.py from ssdp_listener.py / const.py / ssdp.py — do not edit. *)",
@@ -168,4 +369,6 @@ def generate(repo: Path) -> str:
         "Definition packet_prefixes : list (list N) := [" + "; ".join(cstr(p) for p in prefixes) + "].",
         "",
     ]
+    for n in notes:
+        print(f"translator:Ssdp: note: {n}")
     return "\n".join(lines)
